@@ -52,9 +52,14 @@ def tmpdir():
     global _tmp
     if _tmp is None or not os.path.isdir(_tmp):
         _tmp = tempfile.mkdtemp(prefix='c15_')
-        import atexit
-        atexit.register(shutil.rmtree, _tmp, True)
     return _tmp
+
+
+def drop_tmpdir():
+    global _tmp
+    if _tmp is not None:
+        shutil.rmtree(_tmp, ignore_errors=True)
+        _tmp = None
 
 
 def list_form(text, keep):
@@ -165,6 +170,13 @@ def run_lines(r, ws):
 
 
 def replay(case):
+    try:
+        return _replay(case)
+    finally:
+        drop_tmpdir()
+
+
+def _replay(case):
     r = core.Result()
     text, name, form = case['text'], case['renderer'], case['form']
     if form == 'final-newline':
@@ -205,6 +217,13 @@ def check_subprocess(name, texts):
 
 
 def run_job(job):
+    try:
+        return _run_job(job)
+    finally:
+        drop_tmpdir()          # pool workers do not run atexit handlers: remove the scratch files per job
+
+
+def _run_job(job):
     r = core.Result()
     kind = job[0]
     if kind == 'lines':
